@@ -179,6 +179,99 @@ theorem pgtPfn_remain (mem : Mem) (sz t pm : Nat) (pf : PagingForm) (s s2 : Step
   | error e => rw [hm] at h; cases h
   | ok v => rw [hm] at h; remain_tac h
 
+/-! ### the handlers plugged in through `extra` (aarch64.c, arm.c, s390x.c, ppc64.c) -/
+
+theorem aarch64_tail_remain (t : Nat) (pf : PagingForm) (mx : Nat) (s0 s s2 : Step) (pte addr : Nat)
+    (hs : s.remain = s0.remain)
+    (h : Kdf.Model.PgtAarch64.tail t pf mx s pte addr = .ok s2) : RemOK s0 s2 := by
+  unfold Kdf.Model.PgtAarch64.tail at h
+  simp only [] at h
+  repeat' split at h
+  all_goals (cases h <;> first | exact remOK_huge _ _ _ hs | exact remOK_refl _ _ hs)
+
+/-- `pgt_aarch64` -/
+theorem pgtAarch64_remain (mem : Mem) (t pm : Nat) (pf : PagingForm) (s s2 : Step)
+    (h : Kdf.Model.PgtAarch64.pgtAarch64 mem t pm pf s = .ok s2) : RemOK s s2 := by
+  unfold Kdf.Model.PgtAarch64.pgtAarch64 readPte at h
+  cases hm : mem s.base.as s.base.addr 8 with
+  | error e => rw [hm] at h; cases h
+  | ok v =>
+    rw [hm] at h
+    simp only [bind, Except.bind, throw, throwThe, MonadExceptOf.throw] at h
+    split at h
+    · cases h
+    · exact aarch64_tail_remain _ _ _ s _ _ _ _ (by rfl) h
+
+/-- `pgt_aarch64_lpa` -/
+theorem pgtAarch64Lpa_remain (mem : Mem) (t pm : Nat) (pf : PagingForm) (s s2 : Step)
+    (h : Kdf.Model.PgtAarch64.pgtAarch64Lpa mem t pm pf s = .ok s2) : RemOK s s2 := by
+  unfold Kdf.Model.PgtAarch64.pgtAarch64Lpa readPte at h
+  cases hm : mem s.base.as s.base.addr 8 with
+  | error e => rw [hm] at h; cases h
+  | ok v =>
+    rw [hm] at h
+    simp only [bind, Except.bind, throw, throwThe, MonadExceptOf.throw] at h
+    split at h
+    · cases h
+    · exact aarch64_tail_remain _ _ _ s _ _ _ _ (by rfl) h
+
+/-- `pgt_aarch64_lpa2` -/
+theorem pgtAarch64Lpa2_remain (mem : Mem) (t pm : Nat) (pf : PagingForm) (s s2 : Step)
+    (h : Kdf.Model.PgtAarch64.pgtAarch64Lpa2 mem t pm pf s = .ok s2) : RemOK s s2 := by
+  unfold Kdf.Model.PgtAarch64.pgtAarch64Lpa2 readPte at h
+  cases hm : mem s.base.as s.base.addr 8 with
+  | error e => rw [hm] at h; cases h
+  | ok v =>
+    rw [hm] at h
+    simp only [bind, Except.bind, throw, throwThe, MonadExceptOf.throw] at h
+    split at h
+    · cases h
+    · exact aarch64_tail_remain _ _ _ s _ _ _ _ (by rfl) h
+
+/-- `pgt_arm` (`add_overlap` only touches `idx[]`) -/
+theorem pgtArm_remain (mem : Mem) (t pm : Nat) (pf : PagingForm) (s s2 : Step)
+    (h : Kdf.Model.PgtArm.pgtArm mem t pm pf s = .ok s2) : RemOK s s2 := by
+  unfold Kdf.Model.PgtArm.pgtArm readPte at h
+  cases hm : mem s.base.as s.base.addr 4 with
+  | error e => rw [hm] at h; cases h
+  | ok v => rw [hm] at h; remain_tac h
+
+/-- `pgt_s390x` -/
+theorem pgtS390x_remain (mem : Mem) (t pm : Nat) (pf : PagingForm) (s s2 : Step)
+    (h : Kdf.Model.PgtS390x.pgtS390x mem t pm pf s = .ok s2) : RemOK s s2 := by
+  unfold Kdf.Model.PgtS390x.pgtS390x readPte at h
+  cases hm : mem s.base.as s.base.addr 8 with
+  | error e => rw [hm] at h; cases h
+  | ok v => rw [hm] at h; remain_tac h
+
+/-- `pgt_ppc64_linux_rpn30`; `huge_pd_linux` sets `remain = 2`, and is only entered with
+`remain > 1` -/
+theorem pgtPpc64_remain (mem : Mem) (t pm : Nat) (pf : PagingForm) (s s2 : Step)
+    (h : Kdf.Model.PgtPpc64.pgtPpc64LinuxRpn30 mem t pm pf s = .ok s2) : RemOK s s2 := by
+  unfold Kdf.Model.PgtPpc64.pgtPpc64LinuxRpn30 Kdf.Model.PgtPpc64.pgtPpc64Linux readPte at h
+  cases hm : mem s.base.as s.base.addr 8 with
+  | error e => rw [hm] at h; cases h
+  | ok v =>
+    rw [hm] at h
+    simp only [bind, Except.bind, pure, Except.pure, throw, throwThe, MonadExceptOf.throw] at h
+    split at h
+    · cases h
+    · split at h
+      · rename_i hgt
+        split at h
+        · cases h; exact remOK_huge _ _ _ rfl
+        · split at h
+          · unfold Kdf.Model.PgtPpc64.hugePdLinux at h
+            simp only [] at h
+            split at h
+            · cases h
+            · cases h
+              intro _
+              have hgt' : s.remain > 1 := hgt
+              exact ⟨by show 1 ≤ 2; omega, by show 2 ≤ s.remain; omega⟩
+          · cases h; exact remOK_refl _ _ rfl
+      · cases h; exact remOK_refl _ _ rfl
+
 theorem nextStepPgt_remain (mem : Mem) (t pm : Nat) (pf : PagingForm) (s s2 : Step)
     (h : nextStepPgt extra mem t pm pf s = .ok s2) : RemOK s s2 := by
   unfold nextStepPgt at h
@@ -190,7 +283,19 @@ theorem nextStepPgt_remain (mem : Mem) (t pm : Nat) (pf : PagingForm) (s s2 : St
   · exact pgtIa32Pae_remain _ _ _ _ _ _ h
   · exact pgtRiscv64_remain _ _ _ _ _ _ h
   · exact pgtX86_64_remain _ _ _ _ _ _ h
-  · simp only [extra] at h; cases h
+  · -- the formats plugged in through `extra`
+    simp only [extra] at h
+    split at h
+    · rename_i r hr
+      split at hr
+      · cases hr; exact pgtAarch64_remain _ _ _ _ _ _ h
+      · cases hr; exact pgtAarch64Lpa_remain _ _ _ _ _ _ h
+      · cases hr; exact pgtAarch64Lpa2_remain _ _ _ _ _ _ h
+      · cases hr; exact pgtArm_remain _ _ _ _ _ _ h
+      · cases hr; exact pgtS390x_remain _ _ _ _ _ _ h
+      · cases hr; exact pgtPpc64_remain _ _ _ _ _ _ h
+      · cases hr
+    · cases h
 
 theorem nextStep_remain (mem : Mem) (m : Meth) (s s2 : Step)
     (h : nextStep extra mem m s = .ok s2) : RemOK s s2 := by
